@@ -62,6 +62,13 @@
       herald mode is shared, and the conversion goes through on every valid sequence; hence
       `converted_processor_implements`: logical table = (∏ scalars) • product of the source gates, with no
       hypothesis left on labelling, shape, SWAPs or herald sharing;
+  Round 8 (section "(11)" at the end), proved for all gate sequences / qubit counts:
+    * the post-selection bookkeeping of `_create_2_qubit_gates_from_catalog` (`planPS`, Model/C20Post.lean): the
+      conditions of the converted processor are exactly those of the post-processed CNOTs moved by the SWAPs that
+      follow them (`converted_postselection_conditions`), each on the two rails of one qubit
+      (`converted_postselection_on_qubit_pairs`); the end-to-end theorem for the post-selection the converter
+      computes (`converted_source_circuit_implements_planned_postselection`);
+    * the default input state is the encoding of `|0…0⟩` (`default_input_is_logical_zero`).
   What is still NOT proved (validated per instance by the correspondence, see manifest.d/C20.json):
     * the other multi-photon catalog matrices (KLM CNOT — algebraic but not done —, post-processed CCZ, Toffoli, the
       n-qubit controlled rotations for all angles, optimiser-fitted one-qubit gates);
@@ -79,6 +86,8 @@ import PercevalModel.Lemmas.C20Catalog
 import PercevalModel.Lemmas.C20LabelCut
 import PercevalModel.Lemmas.C20Swap
 import PercevalModel.Lemmas.C20Whole
+import PercevalModel.Lemmas.C20Post
+import PercevalModel.Lemmas.C20Input
 import Mathlib.Analysis.Real.Sqrt
 import Mathlib.Data.Complex.Basic
 
@@ -1296,5 +1305,86 @@ theorem converted_source_circuit_summary [Field R] [CharZero R] (n : ℕ)
     convGatesM_pairwise n hv oneQ r h c2 s2 src _ 0 cgs hcgs, htab⟩
   rw [convGatesM_shape n hv oneQ r h c2 s2 src _ 0 cgs hcgs]
   exact label_cutCheck src (fun g hg => srcOk_qubits (hsrc g hg)) (fun g hg hcn h2 => srcOk_name (hsrc g hg) hcn h2)
+
+/-! ## (11) round 8 — the post-selection the converter builds, and its default input state
+
+`_create_2_qubit_gates_from_catalog` saves and clears the processor's post-selection before every two-qubit gate and
+re-applies it afterwards: merged with what a post-processed CNOT brought (`PostSelect.merge`), moved by
+`apply_permutation` for a SWAP.  `planPS` (Model/C20Post.lean) is that bookkeeping; the harness compares it with the
+conditions of every converted processor.  Until this round the end-to-end theorem quantified over an arbitrary list
+`qs` of conditioned qubits; now it is stated for the post-selection the converter actually computes. -/
+
+/-- `PostSelect.merge` as used by the converter is a conjunction: a condition holds in the merged post-selection iff
+it was saved or it came with the gate -/
+theorem merge_is_conjunction (c : Cond) (cur new : List Cond) :
+    c ∈ mergeConds cur new ↔ c ∈ cur ∨ c ∈ new := mem_mergeConds c new cur
+
+/-- … and never repeats a condition -/
+theorem merge_never_repeats (cur new : List Cond) (h : cur.Nodup) : (mergeConds cur new).Nodup :=
+  mergeConds_nodup new cur h
+
+/-- **which conditions a converted processor carries**: exactly the two conditions of every post-processed CNOT,
+each moved by the SWAPs that FOLLOW that CNOT (repaired converter), whatever the order of merging and whatever the
+other gates are -/
+theorem converted_postselection_conditions (c : Cond) (gs : List Gate) (ks : List String) :
+    c ∈ planPS true gs ks [] ↔ c ∈ ppTracked gs ks := by
+  rw [mem_planPS c gs ks []]
+  simp only [List.not_mem_nil, false_and, exists_false, false_or]
+
+/-- a condition saved before a gate is, after it, the condition on the modes its photons were moved to: for a SWAP
+of the qubits `a`, `b` the condition of qubit `q` becomes that of `swapQ a b q` -/
+theorem condition_moves_with_swapped_qubit (a b q : ℕ) (g : Gate) (hq : g.qubits = [a, b]) :
+    moveStep g "PERM" (pairOf q) = pairOf (swapQ a b q) := trackC_pairOf_swap a b q g hq
+
+/-- every condition of a converted processor counts the photons on the two rails of ONE qubit of the processor -/
+theorem converted_postselection_on_qubit_pairs (n : ℕ) (src : List Gate) (hsrc : ∀ g ∈ src, SrcOk n g)
+    (ks : List String) : ∀ c ∈ planPS true src ks [], ∃ q, q < n ∧ c = [2 * q, 2 * q + 1] :=
+  planPS_isPair src ks (fun g hg => srcOk_inRange (hsrc g hg))
+
+-- non-vacuity / regression: `h(1); cx(1,2); swap(2,3); swap(0,1)` on four qubits — the conditions of the CNOT end
+-- on qubits 0 and 3 for the repaired converter, and stayed on qubits 1 and 2 for the pinned one (defect (c))
+example : planPS true [⟨"h", [1]⟩, ⟨"cx", [1, 2]⟩, ⟨"swap", [2, 3]⟩, ⟨"swap", [0, 1]⟩]
+    ["1q", "PostProcessed CNOT", "PERM", "PERM"] [] = [[0, 1], [6, 7]] := by decide
+example : planPS false [⟨"h", [1]⟩, ⟨"cx", [1, 2]⟩, ⟨"swap", [2, 3]⟩, ⟨"swap", [0, 1]⟩]
+    ["1q", "PostProcessed CNOT", "PERM", "PERM"] [] = [[2, 3], [4, 5]] := by decide
+-- two post-processed CNOTs sharing a qubit: the shared condition appears once
+example : planPS true [⟨"cx", [0, 1]⟩, ⟨"cx", [2, 1]⟩] ["PostProcessed CNOT", "PostProcessed CNOT"] [] =
+    [[0, 1], [2, 3], [4, 5]] := by decide
+
+/-- **the end-to-end statement with the post-selection the converter computes** (no list of conditioned qubits is
+quantified over any more): for every qubit count and every source sequence the converter can handle, with the
+labels, herald values AND post-selection conditions the converter computes, the conversion goes through and the
+placed circuit has the logical table `(∏ scalars) • (Gₙ ⋯ G₁)` -/
+theorem converted_source_circuit_implements_planned_postselection [Field R] [CharZero R] (n : ℕ)
+    (oneQ : Gate → Matrix (Fin 2) (Fin 2) R) (src : List Gate) (hsrc : ∀ g ∈ src, SrcOk n g)
+    (r h c2 s2 : R) (hr : 3 * r * r = 1) (hh : 2 * h * h = 1) (hc : 6 * c2 * c2 = 3 + 6 * h * r)
+    (hs : 6 * s2 * s2 = 3 - 6 * h * r) (hcs : 2 * c2 * s2 = r) :
+    ∃ cgs, convGatesM n (planHeralds (planKinds true src (labelCnots true src))) oneQ src (labelCnots true src) 0 =
+        some cgs ∧
+      gateTable (PM.C02.circuitMatrix ((convSteps r h c2 s2 cgs).map (·.U)))
+          (convLayout n (planHeralds (planKinds true src (labelCnots true src))))
+          (condsPS (planPS true src (planKinds true src (labelCnots true src)) [])) =
+        (((convSteps r h c2 s2 cgs).map (·.c)).prod) • (convSteps r h c2 s2 cgs).foldl (fun M g => g.G * M) 1 := by
+  have hpair := planPS_isPair (n := n) src (planKinds true src (labelCnots true src))
+    (fun g hg => srcOk_inRange (hsrc g hg))
+  apply converted_source_circuit_implements n oneQ _ src hsrc _ r h c2 s2 hr hh hc hs hcs
+  intro b hb
+  rw [condsPS_pairs _ (fun c hc => let ⟨q, _, e⟩ := hpair c hc; ⟨q, e⟩)]
+  apply pairPS_accepts_logical _ (convLayout_ok n _) _ _ b hb
+  intro p hp
+  obtain ⟨c, hc, rfl⟩ := List.mem_map.1 hp
+  obtain ⟨q, hq, rfl⟩ := hpair c hc
+  simp only [convLayout, List.mem_map, List.mem_range]
+  exact ⟨q, hq, rfl⟩
+
+
+/-- **the default input of a converted processor is the logical state `|0…0⟩`**: `_input_list` of
+`_configure_processor` (`[0] * 2n` with a `1` written at every even position) followed by the herald values is the
+encoding of the all-zero bit string on the converter's layout — for every qubit count and every list of herald
+values.  (The harness compares `inputState` with `input_state` of every converted processor.) -/
+theorem default_input_is_logical_zero (n : ℕ) (hv : List ℕ) :
+    inputState n hv = encode (convLayout n hv) (List.replicate n false) := inputState_eq_encode_zero n hv
+
+example : inputState 2 [1, 1, 0, 0] = [1, 0, 1, 0, 1, 1, 0, 0] := by decide
 
 end PM.C20
